@@ -7,7 +7,9 @@
 //!
 //! The reader is a synthetic stream (`FaultReader`) of `len` bytes positioned at `pos0`: optional hard
 //! error at absolute offset `fault` (bytes below it are readable; a `read` at it and a `seek` beyond it
-//! return `Err`), `seek` either `Cursor`-like or clamping to the end, reads chunked according to `chunk`
+//! return `Err`; `t<k>` = the error is reported once and the reader works again afterwards, which is what
+//! exposes a swallowed error; `z<k>` = a read at `k` returns `Ok(0)` once although the stream goes on),
+//! `seek` either `Cursor`-like or clamping to the end, reads chunked according to `chunk`
 //! (`f` full, `1` one byte, `r<seed>` random short reads, `i<seed>` random short reads + `Interrupted`).
 //! Every successful mutation of the reader is logged; neighbours of the same kind are merged.
 //!
@@ -104,6 +106,10 @@ pub struct FaultReader {
     pub calls: u64,
     /// do not keep a log (C07: the reader must not allocate while the heap is being measured)
     pub quiet: bool,
+    /// the fault is reported once (by the first call that hits it) and is gone afterwards
+    pub transient: bool,
+    /// `Ok(0)` is returned once, by the first read at or beyond this offset, although the stream goes on
+    pub eof_once: Option<u64>,
 }
 impl FaultReader {
     pub fn new(pos: u64, len: u64, fault: Option<u64>, clamp: bool, chunk: Chunk, seed: u64) -> Self {
@@ -119,6 +125,8 @@ impl FaultReader {
             eof_hit: false,
             calls: 0,
             quiet: false,
+            transient: false,
+            eof_once: None,
         }
     }
     fn push(&mut self, kind: u8, amt: i128) {
@@ -165,10 +173,23 @@ impl Read for FaultReader {
         if let Some(f) = self.fault {
             if self.pos >= f {
                 self.reported_error = true;
+                if self.transient {
+                    self.fault = None;
+                }
                 return Err(Self::injected());
             }
         }
-        let lim = self.len.min(self.fault.unwrap_or(u64::MAX));
+        if let Some(z) = self.eof_once {
+            if self.pos >= z {
+                self.eof_once = None;
+                self.eof_hit = true;
+                return Ok(0);
+            }
+        }
+        let mut lim = self.len.min(self.fault.unwrap_or(u64::MAX));
+        if let Some(z) = self.eof_once {
+            lim = lim.min(z);
+        }
         if self.pos >= lim {
             self.eof_hit = true;
             return Ok(0);
@@ -211,6 +232,9 @@ impl Seek for FaultReader {
         if let Some(f) = self.fault {
             if target > f {
                 self.reported_error = true;
+                if self.transient {
+                    self.fault = None;
+                }
                 return Err(Self::injected());
             }
         }
@@ -392,7 +416,9 @@ pub fn run(line: &str) -> Option<(String, Vec<String>)> {
     let pad = p_usize(rest[0])?;
     let pos0 = p_u64(rest[2])?;
     let len = p_u64(rest[3])?;
-    let fault = if rest[4] == "-" { None } else { Some(p_u64(rest[4])?) };
+    let transient = rest[4].starts_with('t');
+    let eof_once = if rest[4].starts_with('z') { Some(p_u64(&rest[4][1..])?) } else { None };
+    let fault = if rest[4] == "-" || eof_once.is_some() { None } else { Some(p_u64(rest[4].trim_start_matches('t'))?) };
     let clamp = p_u64(rest[5])? != 0;
     let (chunk, seed) = match rest[6].as_bytes().first()? {
         b'f' => (Chunk::Full, 1),
@@ -406,6 +432,8 @@ pub fn run(line: &str) -> Option<(String, Vec<String>)> {
     let limit = resolve_limit(rest[1], &spec, &mut out, pitch)?;
 
     let mut reader = FaultReader::new(pos0, len, fault, clamp, chunk, seed);
+    reader.transient = transient;
+    reader.eof_once = eof_once;
     let res = spec.decode(&mut reader, &mut out, pitch, limit as usize);
     let name = res_name(&res);
     let pos1 = reader.pos;
@@ -529,6 +557,10 @@ pub fn gen(seed: u64, thorough: bool) -> Vec<String> {
                     let lim = *rng.pick(&["d", "n", "d"]);
                     // hard error at pos0+k
                     v.push(format!("{c} 0 {lim} {pos0} {} {} {} {}", pos0 + b + 4, pos0 + k, rng.below(2), chunks(&mut rng)));
+                    // the same error reported only once (the reader recovers): a swallowed error ends in success
+                    v.push(format!("{c} 0 {lim} {pos0} {} t{} {} {}", pos0 + b + 4, pos0 + k, rng.below(2), chunks(&mut rng)));
+                    // `Ok(0)` once at pos0+k on an intact stream (a short read must not pass as success)
+                    v.push(format!("{c} 0 {lim} {pos0} {} z{} {} {}", pos0 + b + 4, pos0 + k, rng.below(2), chunks(&mut rng)));
                     // EOF at pos0+k, Cursor-like and clamping seek
                     v.push(format!("{c} 0 {lim} {pos0} {} - 0 {}", pos0 + k, chunks(&mut rng)));
                     v.push(format!("{c} 0 {lim} {pos0} {} - 1 {}", pos0 + k, chunks(&mut rng)));
@@ -584,6 +616,7 @@ pub fn gen(seed: u64, thorough: bool) -> Vec<String> {
                 v.push(format!("{c} 0 n-1 17 {} - 1 f", 17 + b));
                 let k = rng.below(b);
                 v.push(format!("{c} 0 d 17 {} {} 0 i{}", 17 + b, 17 + k, rng.below(100)));
+                v.push(format!("{c} 0 d 17 {} t{} 0 r{}", 17 + b, 17 + rng.below(b), rng.below(100)));
                 v.push(format!("{c} 0 n 17 {} - {} f", 17 + rng.below(b), rng.below(2)));
                 v.push(format!("{c} 0 d 17 {} - {} f", 17 + b - 1, rng.below(2)));
             }
@@ -622,7 +655,8 @@ pub fn gen(seed: u64, thorough: bool) -> Vec<String> {
         };
         let (len, fault) = match rng.below(5) {
             0 => (pos0 + b + rng.below(4), "-".to_string()),
-            1 | 2 => (pos0 + b + rng.below(4), format!("{}", pos0 + rng.below(b + 1))),
+            1 => (pos0 + b + rng.below(4), format!("{}", pos0 + rng.below(b + 1))),
+            2 => (pos0 + b + rng.below(4), format!("{}{}", if rng.chance(1, 2) { "t" } else { "z" }, pos0 + rng.below(b + 1))),
             _ => (pos0 + rng.below(b + 1), "-".to_string()),
         };
         v.push(format!("{c} {pad} {lim} {pos0} {len} {fault} {} {}", rng.below(2), chunks(&mut rng)));
